@@ -12,7 +12,7 @@ CONSTANT MaxExtra   \* number of further `route add` commands with hostile weigh
 
 Svcs    == {"svc", "@long"}
 Srcs    == {"", "/", "h.com/", "/[", "/{a,b", "/**", "h.com/\\", ":80", "@long", "/%zz", "*.h.com/x", "[::1]/", "h.com", "[/", "*.[h.com/x", "{a,b.com/"}
-Dsts    == {"", "http://h:80/", "%zz", "://", "http://[::1", ":", "tcp://:1", "@long", "http://h/$path", "http://h:99999/"}
+Dsts    == {"", "http://h:80/", "%zz", "://", "http://[::1", ":", "tcp://:1", "@long", "http://h/$path", "http://h:99999/", "/new", "h:8080"}
 Weights == {"", "0.5", "Inf", "-Inf", "+Inf", "NaN", "1e-320", "5e-324", "1e308", "1.7976931348623157e308", "1e400", "-0", "-1",
             "@digits400", "0x1p-2", "1_0", "1e-400", "infinity"}
 Tagss   == {"", "a", ",", "@long", "a,,b"}
